@@ -47,9 +47,9 @@ ObsV(o) == FxObs(o)
 SmUlp == Z(FALSE, <<1>>)                            \* 10^-12: the rounding of the 12-digit encoding of an observed float
 SmBivarMax == 400                                   \* biweight midvariance is compared with its formula up to 400 bins
 
-(* TLC evaluates a function constructor lazily, element by element and again at every application; Force turns   *)
+(* TLC evaluates a function constructor lazily, element by element and again at every application; SmForce turns   *)
 (* it into a stored tuple (each element evaluated once)                                                            *)
-Force(s) == s \o <<>>
+SmForce(s) == s \o <<>>
 
 (* ================================================================= P-layer: which bins ============ *)
 (* "computes each requested statistic over exactly the bins overlapping that segment" (skip_low: of the bins that    *)
@@ -61,9 +61,9 @@ UsedIdx(r) == {k \in 1..Len(r.bins) : ~(r.skip_low /\ IsLow(r, r.bins[k]))}
 Overlaps(b, s) == BinC(b) = SegC(s) /\ BinE(b) > SegS(s) /\ BinS(b) < SegE(s)
 BinsOfSegment(r, j) == {k \in UsedIdx(r) : Overlaps(r.bins[k], r.segs[j])}
 Sel(r, j) == SetToSortSeq(BinsOfSegment(r, j), <)             \* in table order
-ValsFx(r, idx) == Force([m \in 1..Len(idx) |-> FxGrid(BinLg(r.bins[idx[m]]), r.LU)])
+ValsFx(r, idx) == SmForce([m \in 1..Len(idx) |-> FxGrid(BinLg(r.bins[idx[m]]), r.LU)])
 (* "of their deviations from the segment log2": bin log2 minus the log2 column of the segment row *)
-DevsFx(r, idx, j) == Force([m \in 1..Len(idx) |-> FxGrid(BinLg(r.bins[idx[m]]) - SegLg(r.segs[j]), r.LU)])
+DevsFx(r, idx, j) == SmForce([m \in 1..Len(idx) |-> FxGrid(BinLg(r.bins[idx[m]]) - SegLg(r.segs[j]), r.LU)])
 
 (* ================================================================= P-layer: the statistics ============ *)
 SmMean(a) == ZDivTFast(ZSum(a), ZFromInt(Len(a)))                                \* = Stats.Mean, faster division
@@ -164,21 +164,21 @@ PBracket(r, k) ==
 (* (Stats.BHAdjust is the same on exact rationals).  BH is monotone and n/R_j-Lipschitz in p, so the 10^-12          *)
 (* encoding of the p-values moves a q by at most n * 10^-12.                                                        *)
 SmBHFx(ps0) ==
-    LET ps == Force(ps0)
+    LET ps == SmForce(ps0)
         n == Len(ps)
-        R == Force([j \in 1..n |-> Cardinality({k \in 1..n : ZLe(ps[k], ps[j])})])
-        term == Force([j \in 1..n |-> ZDivTFast(ZMulInt(ps[j], n), ZFromInt(R[j]))])
-    IN Force([i \in 1..n |-> FoldSet(LAMBDA j, acc : ZMin(acc, term[j]), FxOne, {j \in 1..n : ZLe(ps[i], ps[j])})])
+        R == SmForce([j \in 1..n |-> Cardinality({k \in 1..n : ZLe(ps[k], ps[j])})])
+        term == SmForce([j \in 1..n |-> ZDivTFast(ZMulInt(ps[j], n), ZFromInt(R[j]))])
+    IN SmForce([i \in 1..n |-> FoldSet(LAMBDA j, acc : ZMin(acc, term[j]), FxOne, {j \in 1..n : ZLe(ps[i], ps[j])})])
 (* the same on exact rationals <<num, den>> with 0 <= num <= den <= 46340 (plain-integer cross-multiplication);     *)
 (* results <<Z num, Z den>>.  Identical to Stats.BHAdjust (checked in MC_Segmetrics), but every intermediate        *)
 (* vector is stored, so a vector of 200 p-values costs n^2 instead of n^3 comparisons.                              *)
 SmRatLe(p, q) == p[1] * q[2] <= q[1] * p[2]
 SmBHRat(ps0) ==
-    LET ps == Force(ps0)
+    LET ps == SmForce(ps0)
         n == Len(ps)
-        R == Force([j \in 1..n |-> Cardinality({k \in 1..n : SmRatLe(ps[k], ps[j])})])
-        term == Force([j \in 1..n |-> <<ZFromInt(n * ps[j][1]), ZFromInt(ps[j][2] * R[j])>>])
-    IN Force([i \in 1..n |-> FoldSet(LAMBDA j, acc : ZRatMin(acc, term[j]), <<ZOne, ZOne>>, {j \in 1..n : SmRatLe(ps[i], ps[j])})])
+        R == SmForce([j \in 1..n |-> Cardinality({k \in 1..n : SmRatLe(ps[k], ps[j])})])
+        term == SmForce([j \in 1..n |-> <<ZFromInt(n * ps[j][1]), ZFromInt(ps[j][2] * R[j])>>])
+    IN SmForce([i \in 1..n |-> FoldSet(LAMBDA j, acc : ZRatMin(acc, term[j]), <<ZOne, ZOne>>, {j \in 1..n : SmRatLe(ps[i], ps[j])})])
 RatFx(q) == ZDivTFast(FxFromZ(q[1]), q[2])           \* <<Z num, Z den>> -> fixed point (truncated)
 
 AlphaFx(r) == IF r.pick = 0 THEN FxFromRat(r.an, r.ad) ELSE ObsV(r.alpha)
@@ -189,7 +189,7 @@ NoDup(seq) == Cardinality(ToSet(seq)) = Len(seq)
 (* three-valued decision from the table alone (no logged p-value): BH of the upper / lower bracket ends bounds the  *)
 (* adjusted p from above / below *)
 BracketQ(r) ==
-    LET br == Force([m \in 1..NT(r) |-> PBracket(r, TIdx(r)[m])])
+    LET br == SmForce([m \in 1..NT(r) |-> PBracket(r, TIdx(r)[m])])
     IN <<SmBHFx([m \in 1..NT(r) |-> br[m][1]]), SmBHFx([m \in 1..NT(r) |-> br[m][2]])>>
 MustHit(q, m, alpha) == ZLt(ZAdd(q[2][m], FxTol9), alpha)
 MustMiss(q, m, alpha) == ZLe(ZAdd(alpha, FxTol9), q[1][m])
